@@ -6,6 +6,7 @@ import SqiModel.Dim2
    matrices row-major (`mat[i][j]` as in C).
      lll.check dn dd en ed q L(16) R(16)        -> diagnostic code of `lllDiag` (0 = certificate accepted)
      lll.retcheck dn dd en ed q L(16) ret R(16) -> 1/0   (`lllRetCheck`; R ignored unless ret = 0)
+     lll.guard L(16) -> -1 | pass  (entry rank test of the repaired routine)   lll.prec q L(16) -> requested mpf precision
      lll.ops B(16) (0 k l r | 1 k 0 0)*         -> B'(16) H(16)    (fold of integer row operations, rows)
      lll.gs q B(16)                             -> n0 n1 n2 n3 t10 t20 t21 t30 t31 t32  (division-free GS of the COLUMNS)
      d2.norm q c1 c2 | d2.bil q v11 v12 v21 v22 | d2.short q B(4) | d2.coef q a0 a1 b0 b1 t0 t1
@@ -71,6 +72,12 @@ def handleInts : String → List Int → Option String
         let b := (matOf l').map (·.1)
         pure (b01 (lllRetCheck dn dd en ed q a ret (b.getD Mat4.zero)))
       | _ => none
+  | "lll.guard", l => do
+      let (a, _) ← matOf l
+      pure (match lllGuard a with | some r => intToHex r | none => "pass")
+  | "lll.prec", q :: l => do
+      let (a, _) ← matOf l
+      pure (toHex (lllPrecision q a))
   | "lll.ops", l => do
       let (a, l) ← matOf l
       let ops ← opsOf l
